@@ -285,6 +285,10 @@ func (matrix *SparseInt16Matrix) T() Matrix {
   return m
 }
 func (matrix *SparseInt16Matrix) Tip() {
+  if matrix.rows != matrix.rowMax || matrix.cols != matrix.colMax {
+    // the cycles of an in-place transposition run over the whole storage
+    panic("Tip(): in-place transposition of a matrix view is not supported")
+  }
   mn := matrix.values.Dim()
   visited := make([]bool, mn)
   k := 0
